@@ -3,14 +3,10 @@ package router
 import "github.com/gammazero/nexus/v3/wamp"
 
 func pptOptionsToDetails(options wamp.Dict, details wamp.Dict) {
-	details[wamp.OptPPTScheme] = options[wamp.OptPPTScheme].(string)
-	if val, ok := options[wamp.OptPPTSerializer]; ok {
-		details[wamp.OptPPTSerializer] = val.(string)
-	}
-	if val, ok := options[wamp.OptPPTCipher]; ok {
-		details[wamp.OptPPTCipher] = val.(string)
-	}
-	if val, ok := options[wamp.OptPPTKeyId]; ok {
-		details[wamp.OptPPTKeyId] = val.(string)
+	// Options come from the client and may hold any type; copy only strings.
+	for _, opt := range []string{wamp.OptPPTScheme, wamp.OptPPTSerializer, wamp.OptPPTCipher, wamp.OptPPTKeyId} {
+		if val, ok := options[opt].(string); ok {
+			details[opt] = val
+		}
 	}
 }
